@@ -596,9 +596,40 @@ class Scenario:
             th.start()
             th.join()
         after = self.observe(True)
+        if not box.get("error"):
+            box["error"] = self.refused_enter()
         return {"error": box.get("error"), "before": before, "after": after, "raised": box.get("raised"),
                 "cut_label": self.cut_label, "writes": list(self.rec.writes), "snaps": self.snaps, "ntrig": self.ntrig,
                 "shapes": self.shapes, "renders": self.renders, "termmode": self.termmode, "notes": self.notes}
+
+
+def _refused_enter(self):
+    """An Input over a stream that is not a terminal: __enter__ raises before a context exists, so there is nothing to
+    leave and nothing may have been changed -- handler, wake-up descriptor and descriptor table are as before.  (The
+    model's contexts are all over a working terminal; this case is judged here and reported as a harness error.)"""
+    for cfg in _input_cfgs(self.inp["prog"]).values():
+        r, w = os.pipe()
+        f = os.fdopen(r, "r", closefd=False)
+        try:
+            I = ci.Input(in_stream=f, sigint_event=cfg[1], disable_terminal_start_stop=cfg[2])
+            b = self.observe(True)
+            try:
+                I.__enter__()
+            except termios.error:
+                a = self.observe(True)
+                if a != b:
+                    return ("Input(sigint_event=%r, disable_terminal_start_stop=%r).__enter__ on a stream that is not "
+                            "a terminal raised termios.error and left the process changed: before %r after %r"
+                            % (cfg[1], cfg[2], b, a))
+            else:
+                return "Input.__enter__ on a pipe did not raise termios.error"
+        finally:
+            os.close(r)
+            os.close(w)
+    return None
+
+
+Scenario.refused_enter = _refused_enter
 
 
 class _Bomb(FmtStr):
